@@ -1,7 +1,7 @@
 """C14 - TraceState stays a valid, duplicate-free W3C list under every update.
 
 1. TLC, exhaustive: spec/TraceState.tla (lists of abstract <<class, n>> keys/values, Max = 32 real) from the
-   canonical lists of 0/1/2/31/32 members through every history of <= 3 menu operations on ANY object
+   canonical lists of 0/1/2/31/32 members through every history of <= 2 (thorough: 3) menu operations on ANY object
    created so far: AllValid, AtMost32, NoDuplicate, SetPutsFirstKeepsRestOnce, RefusedAtMax,
    DeleteExact, InvalidYieldsEmpty, GetIsLatest, HeaderRoundTrip, OriginalUntouched (action property).
    A second run with the deviation catalogue enabled checks that the property can only break through
@@ -58,39 +58,39 @@ def _cfg(ctx, name, dev, hist, menu, maxops, sizes, invs, prop=""):
 
 
 def model_check(ctx):
+    """Runs in a worker thread beside generate(): returns [(name, result)], the caller does the bookkeeping."""
+    runs = []
     thorough = ctx.tier == "thorough"
     sizes = "{0, 1, 2, 31, 32}"
-    c = _cfg(ctx, "mc.cfg", [], False, "ops", 3, sizes, INVS, "PROPERTY OriginalUntouched\n")
-    r = tlc.tlc("TraceState", c, rundir=ctx.rundir.path, workers=4, timeout_s=900 if thorough else 150,
-                coverage=True, tag="mc3")
-    ctx.add_tlc("TraceState ideal, <=3 ops on any object, lists of 0/1/2/31/32", r)
-    if r.status == "timeout":
-        log("depth-3 model checking timed out (bounded, reported as not exhaustive)")
-        c = _cfg(ctx, "mc2.cfg", [], False, "ops", 2, sizes, INVS, "PROPERTY OriginalUntouched\n")
-        r = tlc.tlc("TraceState", c, rundir=ctx.rundir.path, workers=4, timeout_s=300, coverage=True, tag="mc2")
-        ctx.add_tlc("TraceState ideal, <=2 ops", r)
+    P = "PROPERTY OriginalUntouched\n"
+    # exhaustive, ideal spec: every history of 2 operations from every canonical list (+ vacuity guard)
+    c = _cfg(ctx, "mc2.cfg", [], False, "ops", 2, sizes, INVS, P)
+    r = tlc.tlc("TraceState", c, rundir=ctx.rundir.path, workers=4, timeout_s=600, coverage=True, tag="mc2")
+    runs.append(("TraceState ideal, <=2 ops on any object, lists of 0/1/2/31/32", r))
     tlc.must_ok(r, "TraceState model checking (the ideal spec must satisfy the property)")
     for a in ACTIONS:
         if r.coverage.get(a, (0, 0))[0] == 0:
             raise Broken("vacuity: action %s never taken in the main TraceState configuration" % a)
-    if thorough:
-        c = _cfg(ctx, "mc4.cfg", [], False, "ops", 4, "{1, 32}", INVS, "PROPERTY OriginalUntouched\n")
-        r = tlc.tlc("TraceState", c, rundir=ctx.rundir.path, workers=4, timeout_s=420, tag="mc4")
-        ctx.add_tlc("TraceState ideal, <=4 ops, lists of 1/32 (time-bounded)", r)
-        if r.status != "timeout":
-            tlc.must_ok(r, "TraceState model checking depth 4")
+    # ... of 3 operations: quick from the full list only, thorough from every canonical list
+    c = _cfg(ctx, "mc3.cfg", [], False, "ops", 3, sizes if thorough else "{32}", INVS, P)
+    r = tlc.tlc("TraceState", c, rundir=ctx.rundir.path, workers=4, timeout_s=900 if thorough else 100, tag="mc3")
+    runs.append(("TraceState ideal, <=3 ops on any object, lists of %s" % ("0/1/2/31/32" if thorough else "32"), r))
+    if r.status == "timeout":
+        log("depth-3 model checking timed out (bounded, reported as not exhaustive)")
+    else:
+        tlc.must_ok(r, "TraceState model checking depth 3")
     # every way of breaking the property goes through a named deviation
-    c = _cfg(ctx, "mcd.cfg", ALL_DEVS, False, "ops", 3 if thorough else 2, sizes, INVS_DEV,
-             "PROPERTY OriginalUntouched\n")
+    c = _cfg(ctx, "mcd.cfg", ALL_DEVS, False, "ops", 3 if thorough else 2, sizes, INVS_DEV, P)
     r = tlc.tlc("TraceState", c, rundir=ctx.rundir.path, workers=4, timeout_s=600, tag="mcdev")
-    ctx.add_tlc("TraceState with the deviation catalogue: property \\/ devUsed # {}", r)
+    runs.append(("TraceState with the deviation catalogue: property \\/ devUsed # {}", r))
     tlc.must_ok(r, "TraceState as-implemented model checking")
     # the deviations must really break the ideal property (otherwise the catalogue is vacuous)
     c = _cfg(ctx, "mcv.cfg", ALL_DEVS, False, "ops", 1, "{2, 32}", "NoDuplicate GetIsLatest")
     r = tlc.tlc("TraceState", c, rundir=ctx.rundir.path, workers=2, timeout_s=300, tag="mcvac")
-    ctx.add_tlc("vacuity: the catalogue's deviations violate NoDuplicate/GetIsLatest", r)
+    runs.append(("vacuity: the catalogue's deviations violate NoDuplicate/GetIsLatest", r))
     if r.status != "invariant":
         raise Broken("vacuity: deviations enabled but the ideal invariants still hold (%s)" % r.status)
+    return runs
 
 
 def generate(ctx):
@@ -126,6 +126,16 @@ def generate(ctx):
     ctx.add_tlc("generation: all behaviours of 2 operations", r)
     tlc.must_ok(r, "behaviour generation depth 2")
     counts["bfs2"] = add(r, "bfs2")
+    flagcov = {}
+    for b in behs:
+        if b["src"] == "bfs2":
+            for st in b["steps"]:
+                for f in st.get("fl", []):
+                    flagcov[f] = flagcov.get(f, 0) + 1
+    ctx.extra["rare_situations_in_depth2_behaviours"] = flagcov
+    for f in ("refused", "exist_at_max", "exist_below_max", "grow_to_max", "del_at_max", "invalid_on_nonempty"):
+        if not flagcov.get(f):
+            raise Broken("vacuity: situation %s never occurs in the exhaustive depth-2 behaviours" % f)
     if thorough:
         c = _cfg(ctx, "g3.cfg", ALL_DEVS, True, "ops", 3, "{0, 2}", "EmitAll")
         r = tlc.tlc("TraceState", c, rundir=ctx.rundir.path, workers=1, timeout_s=900, tag="gen3")
@@ -138,8 +148,9 @@ def generate(ctx):
         c = _cfg(ctx, "w-%s-%d.cfg" % (w, len(dev)), dev, True, "ops", depth + 1, sizes, w)
         return tlc.tlc("TraceState", c, rundir=ctx.rundir.path, workers=1, timeout_s=300, tag="%s-%d" % (w, len(dev)))
 
-    wjobs = [(wd, dev) for wd in WITNESSES for dev in ([], ALL_DEVS)]
-    with cf.ThreadPoolExecutor(max_workers=4) as ex:
+    wjobs = [(wd, dev) for wd in WITNESSES for dev in ([], ALL_DEVS)] if thorough else \
+            [(wd, ALL_DEVS) for wd in WITNESSES if wd[2] == 2]
+    with cf.ThreadPoolExecutor(max_workers=2) as ex:
         wres = list(ex.map(wit, wjobs))
     for ((w, sizes, depth), dev), r in zip(wjobs, wres):
         ctx.add_tlc("witness %s (Dev %s)" % (w, "all" if dev else "{}"), r)
@@ -326,7 +337,7 @@ def run(ctx):
         "don't-care bands: valid headers with empty members / blanks around members may parse to the complete list or "
         "to the empty state; headers with duplicate keys, white space other than blank/tab at member borders are not generated",
         "only the std::regex variants of IsValidKey/IsValidValue are compiled with this tool chain",
-        "exhaustive TLC results: lists of 0/1/2/31/32 members, <= 3 operations from the stated menu on any object",
+        "exhaustive TLC results: lists of 0/1/2/31/32 members, <= 2 operations (quick; 3 from the 32-list) or <= 3 (thorough) from the stated menu on any object",
     ]
     ctx.extra["rule"] = (
         "states/transitions: TLC on TraceState.tla (exhaustive runs, generation runs, trace validation); "
@@ -338,11 +349,14 @@ def run(ctx):
     exe = build.harness("c14_tracestate", ["c14_tracestate.cc"], "asan", need_sdk=False)
     ph["build"] = round(ctx.timer.s() - t0, 1)
     t0 = ctx.timer.s()
-    model_check(ctx)
-    ph["model_check"] = round(ctx.timer.s() - t0, 1)
-    t0 = ctx.timer.s()
+    mpool = cf.ThreadPoolExecutor(max_workers=1)     # the exhaustive runs go beside the generation runs
+    fm = mpool.submit(model_check, ctx)
     behs = generate(ctx)
     ph["generate"] = round(ctx.timer.s() - t0, 1)
+    for name, r in fm.result():
+        ctx.add_tlc(name, r)
+    mpool.shutdown()
+    ph["model_check_and_generate"] = round(ctx.timer.s() - t0, 1)
     t0 = ctx.timer.s()
     ninst = {"parse": 12 if thorough else 4, "bfs2": 2 if thorough else 1, "bfs3": 1, "simulate": 2 if thorough else 1}
     for (w, _, _) in WITNESSES:
